@@ -6,7 +6,7 @@ CONSTANTS
   N2 = 6
   A3 = {"0x", "1", "a", ".", "p", "-", "_"}
   N3 = 5
-  A4 = {"inf", "inity", "nan", "NaN", "INF", "+", "-", "i", "y", "1"}
+  A4 = {"inf", "inity", "nan", "NaN", "INF", "+", "-", "i", "y", "1", ":", "/"}
   N4 = 3
   A5 = {"0", "1", "9", "+", "-", "_"}
   N5 = 6
